@@ -98,7 +98,7 @@ func TestVerifC04Simple(t *testing.T) {
 	}
 	n := vhEnvInt("VERIF_NRANDOM", 100)
 	for i := 0; i < n; i++ {
-		override := rng.Intn(4) == 0
+		override := rng.Intn(3) == 0
 		c04RunHistory(t, out, beh, c04RandomHistory(rng, []string{""}), override, 1+rng.Intn(8))
 		beh++
 	}
